@@ -55,6 +55,14 @@ var solvers = []solverSpec{
 		}
 		return a
 	}},
+	{"z3-new-cs3", func(t time.Duration, rl int64) []string {
+		// different case-split heuristic: robust on obligations with merged (ite) heap arrays
+		a := []string{"z3-new", "-in", "-smt2", "-T:" + secs(t), "smt.case_split=3"}
+		if rl > 0 {
+			a = append(a, "rlimit="+itoa64(rl))
+		}
+		return a
+	}},
 }
 
 func itoa64(n int64) string {
